@@ -49,6 +49,11 @@ impl AtomicBool {
         hook(Access::Store);
         self.0.store(v, order)
     }
+    #[track_caller]
+    pub fn swap(&self, v: bool, order: Ordering) -> bool {
+        hook(Access::Rmw);
+        self.0.swap(v, order)
+    }
 }
 
 #[derive(Debug, Default)]
